@@ -289,7 +289,7 @@ func runC05(e *core.Env, n int) {
 		if kind == ClientStream {
 			sc.Receiver = []Op{{Op: "recv"}, {Op: "recv"}}
 		}
-		sc.RecvAfterSend = true
+		sc.RecvAfterSend = c.HTTP // in process the receiver runs concurrently: nothing here relies on buffering
 		run := c.Svc.NewRun(sc, c.Name)
 		defer c.Svc.Forget(run)
 		done := make(chan struct{})
@@ -300,6 +300,11 @@ func runC05(e *core.Env, n int) {
 		fin, stuck, dump := waitDoneOrStuck(done, 60*time.Second)
 		e.Eval(fmt.Sprintf("early-return|%s|%s|%s", c.Name, kind, sc.Ret.How), true)
 		if !fin {
+			if _, hret := run.HandlerReturn(); stuck && !hret {
+				e.Inconclusive("C05 early-return %s: parked before the handler returned (script-level wait)", c.Name)
+				forceEnd(run, done)
+				return
+			}
 			if stuck {
 				e.Violate(c.Name+"/"+kind.String()+"/deadlock", "handler returned at once while the client kept sending: "+parkedSummary(dump), map[string]any{"events": run.Events(), "goroutines": trunc(dump, 20000)})
 			} else {
